@@ -100,6 +100,8 @@ func checkC13(c *Ctx) {
 	c.Rule("R13.1", "every return of every Write([]byte)(int,error) method is (len(param),nil) | (k, non-nil err) | relay of inner Write(param)", 8)
 	c.Rule("R13.2", "multiWriteSyncer.Write: same bytes to every sink, no loop exit, all errors appended, min-fold count with accepted seed idiom; Sync visits all", 4)
 	c.Rule("R13.3", "Lock / AddSync / writerWrapper relay and wrap exactly as documented", 5)
+	c.Rule("R13.5", "BufferedWriteSyncer relays only its bufio.Writer (which enforces the contract); the sink is never written directly, pending bytes never discarded", 2)
+	c12SinkOwnership(c, "R13.5")
 	c.Rule("R13.4", "lockedWriteSyncer holds its mutex across the inner call on every path and releases it before every exit", 3)
 
 	// table exceptions (one line of reason each)
